@@ -240,6 +240,10 @@ def _rio_reproject(
         if src_is_bool:
             # undo [0, 1] to [0, 255] stretching of the src
             np.copyto(dst, _dst > 127, casting="unsafe")
+        elif dst.dtype.kind in "iu" and _dst.dtype.itemsize > dst.dtype.itemsize:
+            # wider working type: values GDAL moved off the nodata value must not wrap around
+            _lim = np.iinfo(dst.dtype)
+            np.copyto(dst, np.clip(_dst, _lim.min, _lim.max), casting="unsafe")
         else:
             np.copyto(dst, _dst, casting="unsafe")
 
